@@ -246,6 +246,7 @@ func runInit(o *Out, rng *rand.Rand, thorough bool) {
 		crng := o.CaseRng(ci)
 		c := genInitCase(crng)
 		if replayFile != "" {
+			c = initCase{} // a replay is the whole case: nothing of the generated one may shine through fields the file omits
 			loadReplayInto(replayFile, &c)
 		}
 		if !o.BeginCase(ci, c) {
